@@ -287,6 +287,19 @@ class LbWorld(object):
     if e in self.members:
       self.members.remove(e)
 
+  def _op_LeaveX(self, e):
+    """A leave notification during which closing the departing member's channel raises (the server set logs the error of
+    the callback and carries on with later notifications)."""
+    for n in self.heap_nodes():
+      if self.ep_idx(n.endpoint) == e:
+        n.channel.close_raises = True
+    try:
+      self.ssp.on_leave(self.server(e))
+    except stubs.StubCloseError:
+      pass
+    if e in self.members:
+      self.members.remove(e)
+
   def _ensure_notifier(self):
     import gevent
     import gevent.queue
@@ -377,6 +390,10 @@ class LbWorld(object):
         if e in eff or p.get('dup_ops'):
           if self._nnotif() < p.get('max_notifications', 99):
             ops.append([lk, e])
+    if 'LeaveX' in alpha and not p.get('notifier'):
+      for e in range(self.universe):
+        if e in self.members and self._nnotif() < p.get('max_notifications', 99) and not getattr(self, '_leavex', False):
+          ops.append(['LeaveX', e])
     if 'Gate' in alpha and self.loading:
       ops.append(['Gate'])
     if 'Adv' in alpha and not self.loading:
@@ -405,8 +422,10 @@ class LbWorld(object):
   def _after_step(self, name, op):
     lb = self.lb
     HB = self.HB
-    if name in ('Join', 'Leave', 'JoinQ', 'LeaveQ'):
+    if name in ('Join', 'Leave', 'JoinQ', 'LeaveQ', 'LeaveX'):
       self._notif_count = self._nnotif() + 1
+    if name == 'LeaveX':
+      self._leavex = True
     if self.lp.errors:
       self.v('LB.exception', 'exception escaped into the event loop during %r: %s: %s' % (op, self.lp.errors[0][1], self.lp.errors[0][2]))
       self.lp.errors = []
@@ -621,6 +640,7 @@ class LbWorld(object):
     timers = tuple(round(at - now, 6) for (at, seq, tm) in self.lp.active_timers() if at - now < 1000 and self.p.get('key_timers'))
     k.append(timers)
     k.append(self._nnotif() if self.p.get('max_notifications') else 0)
+    k.append(getattr(self, '_leavex', False))
     if self.m_ema is not None and self.p.get('c06'):
       k.append((round(self.m_ema[0], 9), round(now - self.m_ema[1], 6)))
     return repr(k)
